@@ -48,6 +48,15 @@ theorem radau_errnorm_spec {n : Nat} (cont scal : Vector K n) :
   rw [foldl_add_eq_sum]
   simp [num_lit, errSum, Num.sqrt, Num.ofNat]
 
+/-- the refined estimate of a first / retried step is measured in the same norm -/
+theorem radau_errnorm2_spec {n : Nat} (cont scal : Vector K n) :
+    Gen.Radau.errnorm2 (cont := cont) (scal := scal)
+      = SqrtPow.sqrt (errSum (fun i => cont[i]) (fun i => scal[i]) / (n : K)) := by
+  unfold Gen.Radau.errnorm2 Gen.Radau.errnorm2_loop1
+  show Num.sqrt ((Fin.foldl n (fun acc i => acc + _) _) / _) = _
+  rw [foldl_add_eq_sum]
+  simp [num_lit, errSum, Num.sqrt, Num.ofNat]
+
 theorem radau_scal0_spec {n : Nat} (atol rtol y : Vector K n) (i : Fin n) :
     (Gen.Radau.scal0 (atol := atol) (rtol := rtol) (y := y)).scal[i] = atol[i] + rtol[i] * |y[i]| := by
   simp [Gen.Radau.scal0, Gen.Radau.scal0_loop1, Num.abs]
